@@ -1,5 +1,5 @@
 """Property id -> rules, and the texts that go to MANIFEST / evidence."""
-from .rules import optab, sign, role, memo
+from .rules import optab, sign, role, memo, state
 
 PROPS = dict()
 NOT_BUILT = dict()
@@ -26,6 +26,7 @@ prop('C01', [
     role.r_role,
     memo.r_memo,
     memo.r_inval,
+    state.r_norm,
 ],
     'every operator alias of dd._abc is interpreted through BDD.apply over '
     'the Boolean domain and compared with its connective (27 aliases, 8 '
@@ -44,6 +45,10 @@ prop('C01', [
 prop('C02', [
     sign.r_sign,
     role.r_role,
+    state.r_norm,
+    state.r_pair,
+    state.r_writers,
+    state.r_invmap,
 ],
     'normal form steps of find_or_add on every path (validation, '
     'complement normalisation, elimination, unique-table lookup, insert '
@@ -95,9 +100,32 @@ prop('C05', [
     'the LALR automaton PLY builds from the productions.',
     'token/precedence table agreement; path-sensitive dataflow on the '
     'printer')
+prop('C06', [
+    state.r_pair,
+    state.r_invmap,
+    state.r_writers,
+    memo.r_inval,
+    memo.r_memo,
+],
+    'every insert of a node is followed by incref of each child; incref '
+    'adds one, decref subtracts one only under the positive-count guard; '
+    'every node removed by collect_garbage leaves all three tables, '
+    'releases both children and queues those that drop to zero; the work '
+    'list is seeded with zero-count nodes only; in swap every rewritten '
+    'node releases its old and acquires its new children and the old ones '
+    'reach the rooted collection; every function that removes or rewrites '
+    'nodes resets the computed table on every exit; no memo outlives a '
+    'call; only the confirmed writer set touches the tables.',
+    'exact equality of counts over histories (needs the induction over '
+    'the node table); re-use of node numbers is covered only through the '
+    'invalidation and freshness rules.',
+    'pairing / must-follow analysis on enumerated paths; who-may-write')
 prop('C07', [
     role.r_role,
     memo.r_inval,
+    state.r_pair,
+    state.r_invmap,
+    state.r_writers,
 ],
     'swap: old children released and new children acquired for every '
     'rewritten node, candidates handed to the rooted collection, '
@@ -145,6 +173,20 @@ prop('C13', [
     'encodings under forall.',
     'the level-shift arithmetic jv + z - iv.',
     'path-sensitive role dataflow; truth tables of ite encodings')
+prop('C14', [
+    state.r_invmap,
+    state.r_writers,
+    memo.r_inval,
+],
+    'vars/_level_to_var written as inverse entries and the terminal moved '
+    'below each new variable on every path of add_var; undeclare_vars '
+    're-derives _pred and _level_to_var as inverses after rebinding, '
+    'builds the compaction map by enumerating an ascending range and '
+    'resets the computed table; validation precedes the first write; '
+    'caller-supplied levels are bounded.',
+    'value-level conditions of _check_var.',
+    'inverse-map pairing, validation-before-mutation and bound checks on '
+    'enumerated paths')
 prop('C15', [
     optab.r_optab_mdd,
     optab.r_apply_validates([('dd.mdd', 'MDD')]),
@@ -152,6 +194,8 @@ prop('C15', [
     sign.r_sign,
     memo.r_memo,
     memo.r_inval,
+    state.r_norm,
+    state.r_pair,
 ],
     'MDD.apply interpreted per alias against the connectives and against '
     'BDD.apply; terminal cases of MDD.ite; sign in MDD._top_cofactor and '
